@@ -2,6 +2,7 @@
 // Layer 1: per-call exactness of the assembled right-hand side under a scripted, RK-shaped stepper.
 // Layer 2: end-to-end agreement with closed-form / independent solutions for every real GSL stepper mode.
 #include "solver.hpp"
+#include <memory>
 #include <functional>
 using namespace vf;
 
@@ -74,8 +75,17 @@ static void layer1_config(Problem p, bool reduced) {
 // ---------------- layer 2 ----------------
 struct Mode { const char* name; const gsl_odeiv2_step_type* type; bool adaptive; double tol; };
 
-static void layer2_run(const Problem& p, const Mode& m, double tini, const char* oracle, int ncalls = 1) {
-  Probe s(p, tini);
+// via: how the solver object that is evolved came to be: 0 constructed directly, 1 move-constructed, 2 move-assigned into a default-constructed
+// object, 3 move-assigned over a used object of another shape
+static void layer2_run(const Problem& p, const Mode& m, double tini, const char* oracle, int ncalls = 1, int via = 0) {
+  Probe s0(p, tini);
+  std::unique_ptr<Probe> moved;
+  if (via == 1) moved.reset(new Probe(std::move(s0)));
+  else if (via == 2) { moved.reset(new Probe()); *moved = std::move(s0); }
+  else if (via == 3) { Problem q = p; q.nx = p.nx + 1; q.d = (p.d == 2 ? 3 : 2); q.nrho = 3 - p.nrho + 1; q.nsc = 2 - p.nsc; for (int b = 0; b < 5; b++) q.sw[b] = true; moved.reset(new Probe(q, 3.0)); moved->Set_rel_error(1e-3); moved->Set_abs_error(1e-3); moved->set_flat(probe_state(q, 1)); moved->Evolve(0.1); *moved = std::move(s0); }
+  Probe& s = via ? *moved : s0;
+  if (via) { s0.P.kappa = 55; s0.P.d = 2; }   // the moved-from object's problem is poisoned: callbacks must reach the new object
+  if (via) count("moved_solver_runs");
   s.Set_GSL_step(m.type); s.Set_AdaptiveStep(m.adaptive);
   if (m.adaptive) { s.Set_rel_error(1e-10); s.Set_abs_error(1e-10); s.Set_h(1e-4); }
   else { s.Set_NumSteps(2000); s.Set_rel_error(1e-2); s.Set_abs_error(1e-2); }
@@ -166,6 +176,13 @@ int main(int argc, char** argv) {
     if ((caseno++ % ar.nshards) != ar.shard) continue;
     Problem p; p.nx = nx; p.d = d; p.nrho = nrho; p.nsc = nsc; for (int b = 0; b < 5; b++) p.sw[b] = (sw >> b) & 1; p.family = 0; p.kappa = 0.3; p.kappa2 = p.sw[4] ? 0.0 : 0.2;
     layer2_run(p, m, tini, "closed-form");
+  }
+  // the evolved object is move-constructed / move-assigned (into a fresh and over a used object of another shape): every shape, two stepper modes
+  for (int mi : {2, 7}) for (int nx = 1; nx <= 3; nx++) for (int d : {2, 3}) for (int nrho = 1; nrho <= 2; nrho++) for (int nsc = 0; nsc <= 2; nsc++) for (int via = 1; via <= 3; via++) {
+    if ((size_t)mi >= modes.size()) continue;
+    if ((caseno++ % ar.nshards) != ar.shard) continue;
+    Problem p; p.nx = nx; p.d = d; p.nrho = nrho; p.nsc = nsc; for (int b = 0; b < 5; b++) p.sw[b] = 1; p.family = 0; p.kappa = 0.3; p.kappa2 = 0.0;
+    layer2_run(p, modes[mi], 1.5, "closed-form", 1, via);
   }
   // several consecutive Evolve calls over the same interval, every stepper mode, time-dependent terms
   for (auto& m : modes) for (int d : dims2) for (int sw : {1, 9, 27, 31}) for (int ncalls : {2, 3}) {
